@@ -177,8 +177,10 @@ class Scrambler(Elaboratable):
         sink   = self.sink
         source = self.source
 
-        # Detect when we're sending a comma; which should reset our scrambling LFSR.
-        comma_present = stream_word_matches_symbol(sink, 0, symbol=COM)
+        # Detect when we're sending a comma; which should reset our scrambling LFSR. The reset must only
+        # happen once the word is actually accepted; otherwise a comma word that waits for ``ready`` would
+        # have its remaining data symbols re-scrambled with the restarted sequence while it waits.
+        comma_present = stream_word_matches_symbol(sink, 0, symbol=COM) & source.ready
 
         # Create our inner LFSR, which should advance whenever our input streams do.
         m.submodules.lfsr = lfsr = ScramblerLFSR(initial_value=self._initial_value)
